@@ -10,7 +10,7 @@ import (
 
 func init() {
 	register("C04", propMeta{
-		Explanation: "E-CHAN + E-PAIR + E-LOCK on the broker's rendezvous channels (BrokerContext.proxyPolls, ProxyPoll.offerChannel, Snowflake.offerChannel, Snowflake.answerChannel). Unbounded waiting has a shape: a goroutine parked on a channel operation no remaining path of any other goroutine completes. O-0 enumerates every operation on the four classes with its mode (unconditional / polling / timed). O-1 reply obligation: the responder of an unconditionally awaited class (the per-poll goroutine for ProxyPoll.offerChannel) sends on or closes that channel on every terminating path. O-2 abandonable peer: an unconditional send on a class is allowed only if every receiver that can walk away (timed/polling) either completes the receive later on each abandoning path or revokes the sender (heap.Remove under snowflakeLock on the index != -1 edge); a class whose receiver can walk away without revocation (answerChannel) admits only polling or timed sends. O-2b claimed means committed: index becomes -1 only in the heap's Pop; from the non-nil edge of matchSnowflake every path of ClientOffers reaches the send of the offer. O-3 the timed waits use the protocol constants (10 s). O-4 deregistration on every exit: after a match every path of ClientOffers passes the map delete and one gauge Dec under snowflakeLock; in the timeout branch Remove, delete, Dec and close lie on the same edge set; AddSnowflake is the only Inc and the only insert. O-5 lock hygiene: every Lock released on all paths, no blocking channel operation or RequestOffer under snowflakeLock/Metrics.lock, lock order acyclic. A violated clause is a concrete CFG path on which some request waits for ever or a registration is left behind. Added after the second seeding round: O-6/C03 the heap-shape obligations of C03 (Less orientation, index maintained by Push/Pop/Swap, interface methods private to container/heap), since the claimed test index == -1 depends on them. Added after the third seeding round: the guarded-by rows of the matching state (both heaps, the id map) are evaluated here as well, through C02's obligations, so a length test or a pop outside snowflakeLock (a lock-free fast path) is reported by this property. Added after the fourth seeding round: O-1b (through C02) every poll gets a registration of its own - AddSnowflake never hands out an existing entry, which two waiter goroutines would share.",
+		Explanation: "E-CHAN + E-PAIR + E-LOCK on the broker's rendezvous channels (BrokerContext.proxyPolls, ProxyPoll.offerChannel, Snowflake.offerChannel, Snowflake.answerChannel). Unbounded waiting has a shape: a goroutine parked on a channel operation no remaining path of any other goroutine completes. O-0 enumerates every operation on the four classes with its mode (unconditional / polling / timed). O-1 reply obligation: the responder of an unconditionally awaited class (the per-poll goroutine for ProxyPoll.offerChannel) sends on or closes that channel on every terminating path. O-2 abandonable peer: an unconditional send on a class is allowed only if every receiver that can walk away (timed/polling) either completes the receive later on each abandoning path or revokes the sender (heap.Remove under snowflakeLock on the index != -1 edge); a class whose receiver can walk away without revocation (answerChannel) admits only polling or timed sends. O-2b claimed means committed: index becomes -1 only in the heap's Pop; from the non-nil edge of matchSnowflake every path of ClientOffers reaches the send of the offer. O-3 the timed waits use the protocol constants (10 s). O-4 deregistration on every exit: after a match every path of ClientOffers passes the map delete and one gauge Dec under snowflakeLock; in the timeout branch Remove, delete, Dec and close lie on the same edge set; AddSnowflake is the only Inc and the only insert. O-5 lock hygiene: every Lock released on all paths, no blocking channel operation or RequestOffer under snowflakeLock/Metrics.lock, lock order acyclic. A violated clause is a concrete CFG path on which some request waits for ever or a registration is left behind. Added after the second seeding round: O-6/C03 the heap-shape obligations of C03 (Less orientation, index maintained by Push/Pop/Swap, interface methods private to container/heap), since the claimed test index == -1 depends on them. Added after the third seeding round: the guarded-by rows of the matching state (both heaps, the id map) are evaluated here as well, through C02's obligations, so a length test or a pop outside snowflakeLock (a lock-free fast path) is reported by this property. Added after the fourth seeding round: O-1b (through C02) every poll gets a registration of its own - AddSnowflake never hands out an existing entry, which two waiter goroutines would share. Added after the fifth seeding round: O-1 every poll received by the matching loop is handed to a waiter goroutine (or answered) on every path of the iteration; O-5b no loop other than iteration over a collection runs with snowflakeLock or metrics.lock held (journal writer included); the timed waits may use time.NewTimer.",
 		NotDecided:  "the numeric latency bound (scheduler, HTTP server, JSON time), starvation on snowflakeLock, a proxy re-using a session id while its earlier poll is pending, file I/O latency under Metrics.lock in printMetrics.",
 		Assumptions: []string{"Go channel semantics; time.After fires", "the repeated test of one SSA condition value takes the same outcome within one execution (path-sensitive search)", "lock identity is (type, field)"},
 	}, runC04)
@@ -366,11 +366,7 @@ func runC04(c *Ctx) {
 				continue
 			}
 			nTimed++
-			call, _ := strip(op.Chan).(*ssa.Call)
-			var d int64 = -1
-			if call != nil {
-				d, _ = constInt(call.Call.Args[0])
-			}
+			d := timerDurationOf(op.Chan)
 			c.check(d == 10_000_000_000, rule3, p.FnName(fn)+" waits at most 10 s for its peer", p.instrPos(op.Instr), "time.After(10 s)", fmt.Sprintf("timer duration is %d ns, not the protocol's 10 s", d))
 		}
 	}
@@ -378,6 +374,8 @@ func runC04(c *Ctx) {
 		c.undecided(rule3, "timed selects on broker channels", "-", fmt.Sprintf("found %d, expected the proxy-poll wait and the client wait", nTimed))
 	}
 
+	c.checkEveryPollServed()
+	c.checkNoRetryLoopsUnderLocks(le)
 	// ---------- O-4 deregistration on every exit ----------
 	c.checkDeregistration(le)
 	// the heaps, the id map and Snowflake.index are touched only under snowflakeLock (C02's unique-holder rows):
@@ -596,4 +594,113 @@ func earliestEdges(edges []Edge) []Edge {
 		}
 	}
 	return out
+}
+
+// checkEveryPollServed: every ProxyPoll the matching loop receives is handed to a
+// waiter goroutine (which answers or closes its offerChannel) on every path of
+// the iteration: a poll that is skipped (log and continue) leaves RequestOffer,
+// and with it the proxy's HTTP request, waiting for ever.
+func (c *Ctx) checkEveryPollServed() {
+	p := c.P
+	rule := "O-1 reply obligation"
+	loop := p.Fn("broker", "(*BrokerContext).Broker")
+	if loop == nil {
+		c.undecided(rule, "BrokerContext.Broker", "-", "anchor does not resolve")
+		return
+	}
+	n := 0
+	for _, op := range chanOpsIn(p, loop) {
+		if op.Dir != chRecv || op.Class != "BrokerContext.proxyPolls" {
+			continue
+		}
+		n++
+		isServe := func(in ssa.Instruction) bool {
+			if _, ok := in.(*ssa.Go); ok {
+				return true
+			}
+			for _, o2 := range chanOpsIn(p, loop) {
+				if o2.Instr == in && (o2.Dir == chClose || o2.Dir == chSend) && o2.Class == "ProxyPoll.offerChannel" {
+					return true
+				}
+			}
+			return false
+		}
+		hdr := op.Instr.Block()
+		good := true
+		var wp []*ssa.BasicBlock
+		for _, s := range hdr.Succs {
+			// only the "a poll was received" successor leads back round the loop
+			if reachPath(s, hdr, nil) == nil {
+				continue
+			}
+			if pth := escapesOrLoopsBackWithout(s, hdr, isServe); pth != nil {
+				good, wp = false, pth
+			}
+		}
+		c.check(good, rule, "Broker starts a waiter for every poll it receives", p.instrPos(op.Instr), "", "an iteration of the matching loop can end without a waiter goroutine (or a reply) for the poll it received: that proxy's request never completes", p.pathString(wp)...)
+	}
+	if n == 0 {
+		c.undecided(rule, "Broker receives from proxyPolls", p.Pos(loop.Pos()), "no receive found")
+	}
+}
+
+// checkNoRetryLoopsUnderLocks: code that runs with snowflakeLock or metrics.lock
+// held (the journal writer included) contains no loop other than iteration over
+// a collection: a loop that repeats until an operation succeeds or a clock
+// condition changes never ends when the operation keeps failing, and every later
+// request queues on the lock.
+func (c *Ctx) checkNoRetryLoopsUnderLocks(le *LockEngine) {
+	p := c.P
+	rule := "O-5b no retry loops under the broker's locks"
+	scope := append(append([]*ssa.Function{}, p.FnsIn("broker")...), p.FnsIn("common/ipsetsink", "common/ipsetsink/sinkcluster")...)
+	n, bad := 0, 0
+	for _, fn := range scope {
+		for _, b := range fn.Blocks {
+			if len(b.Instrs) == 0 || !inCycle(b) {
+				continue
+			}
+			ifi, ok := b.Instrs[len(b.Instrs)-1].(*ssa.If)
+			if !ok {
+				continue
+			}
+			// a loop-controlling branch: one successor leaves the cycle
+			leaves := false
+			for _, s := range b.Succs {
+				if reachPath(s, b, nil) == nil {
+					leaves = true
+				}
+			}
+			if !leaves {
+				continue
+			}
+			held := le.Held(ifi, "BrokerContext.snowflakeLock") != heldNone || le.Held(ifi, "Metrics.lock") != heldNone
+			if !held {
+				continue
+			}
+			n++
+			// iteration over a collection: the condition is the ok of a range Next, an index compared with a length,
+			// or a list element compared with nil
+			okLoop := false
+			switch x := ifi.Cond.(type) {
+			case *ssa.Extract:
+				_, okLoop = x.Tuple.(*ssa.Next)
+			case *ssa.BinOp:
+				for _, o := range []ssa.Value{x.X, x.Y} {
+					if cc, _, okc := callResult1(strip(o)); okc && (calleeName(cc) == "builtin.len" || strings.HasSuffix(calleeName(cc), "list.List).Len")) {
+						okLoop = true
+					}
+					if isNilConst(o) {
+						okLoop = true
+					}
+				}
+			}
+			if !okLoop {
+				bad++
+				c.viol(rule, p.FnName(fn)+" loops on a condition that is not an iteration bound", p.instrPos(ifi), "a loop that runs with a broker lock held repeats until some condition changes (a write succeeds, an interval catches up): when it does not, the lock is never released and every request hangs")
+			}
+		}
+	}
+	if bad == 0 {
+		c.ok(rule, "loops under snowflakeLock/metrics.lock iterate over collections", "-", fmt.Sprintf("%d loop condition(s) examined", n))
+	}
 }
